@@ -36,6 +36,8 @@ QUICK = [
                 "MaxN": "5", "MaxStk": "3", "MaxStmts": "1"}, None),    # callbacks whose answers map / filter cannot use
     ("copyparam", {"Fam": "<- FamSelUse", "LitPool": "<- Lits1", "Names": "<- Names1", "BinOps": "<- Ops1",
                    "FldNames": "<- Flds2", "Prelude": "<- PreCopyFn", "MaxN": "4", "MaxStk": "2", "MaxStmts": "1"}, None),
+    ("shadowuse", {"Fam": "<- FamOps", "LitPool": "<- LitsSA", "Names": "<- Names1", "BinOps": "<- Ops1",
+                   "Prelude": "<- PreShadowUse", "MaxN": "3", "MaxStk": "2", "MaxStmts": "1"}, None),
     ("moduse", {"Fam": "<- FamModUse", "LitPool": "<- Lits2", "Names": "<- Names1", "BinOps": "<- Ops1",
                 "FldNames": "<- FldsP", "CastTys": "<- CastsIS", "Prelude": "<- PreMod", "MaxN": "4", "MaxStk": "2",
                 "MaxStmts": "1"}, None),         # the instance of a module as an operand
